@@ -26,6 +26,7 @@ import (
 	"io"
 	"os"
 	"path/filepath"
+	"reflect"
 	"regexp"
 	"runtime"
 	"sort"
@@ -33,10 +34,12 @@ import (
 	"strings"
 	"sync"
 	"time"
+	"unsafe"
 
 	"github.com/paulsonkoly/chess-3/board"
 	"github.com/paulsonkoly/chess-3/move"
 	"github.com/paulsonkoly/chess-3/search"
+	"github.com/paulsonkoly/chess-3/transp"
 
 	. "github.com/paulsonkoly/chess-3/chess"
 
@@ -281,6 +284,87 @@ var fixedRoots = []fixed{
 	{"double-check", "4k3/8/8/8/8/2n5/3r4/3K4 w - - 0 1", nil},
 }
 
+// doubleNetFEN builds a position in which BOTH kings sit in a mating net: each king in a corner region
+// behind (part of) a pawn shield, each side with two to four heavy pieces (and sometimes a knight) placed
+// close to the ENEMY king.  Such positions are the ones in which a node of the losing line can have a
+// forced mate of its own after passing — the precondition of the null-move mate branch with a beta
+// below the mated-at-this-ply score (ghost flag nmpOut) and of an out-of-band table store (ttOut).
+func doubleNetFEN(rng interface{ IntN(int) int }) string {
+	var bd [64]byte
+	put := func(sq int, c byte) bool {
+		if sq < 0 || sq > 63 || bd[sq] != 0 {
+			return false
+		}
+		bd[sq] = c
+		return true
+	}
+	// kings: white on the first rank, black on the eighth, on either wing
+	wkFile, bkFile := []int{0, 1, 6, 7}[rng.IntN(4)], []int{0, 1, 6, 7}[rng.IntN(4)]
+	wk, bk := wkFile, 56+bkFile
+	put(wk, 'K')
+	put(bk, 'k')
+	// pawn shields (each pawn present with probability 2/3), one rank in front of the king
+	for df := -1; df <= 1; df++ {
+		if f := wkFile + df; f >= 0 && f < 8 && rng.IntN(3) != 0 {
+			put(8+f, 'P')
+		}
+		if f := bkFile + df; f >= 0 && f < 8 && rng.IntN(3) != 0 {
+			put(48+f, 'p')
+		}
+	}
+	// attackers near the enemy king: squares within distance 3 of it, not adjacent ranks of the own back rank
+	place := func(king int, pieces string) {
+		kf, kr := king%8, king/8
+		for _, c := range []byte(pieces) {
+			for try := 0; try < 20; try++ {
+				f, r := kf+rng.IntN(7)-3, kr+rng.IntN(7)-3
+				if f < 0 || f > 7 || r < 0 || r > 7 {
+					continue
+				}
+				if put(8*r+f, c) {
+					break
+				}
+			}
+		}
+	}
+	heavy := func(white bool) string {
+		set := []string{"QR", "QQ", "QRR", "RR", "QRN", "QQR", "QN", "QRRN"}[rng.IntN(8)]
+		if !white {
+			set = strings.ToLower(set)
+		}
+		return set
+	}
+	place(bk, heavy(true))
+	place(wk, heavy(false))
+	var sb strings.Builder
+	for r := 7; r >= 0; r-- {
+		empty := 0
+		for f := 0; f < 8; f++ {
+			c := bd[8*r+f]
+			if c == 0 {
+				empty++
+				continue
+			}
+			if empty > 0 {
+				sb.WriteByte(byte('0' + empty))
+				empty = 0
+			}
+			sb.WriteByte(c)
+		}
+		if empty > 0 {
+			sb.WriteByte(byte('0' + empty))
+		}
+		if r > 0 {
+			sb.WriteByte('/')
+		}
+	}
+	stm := "w"
+	if rng.IntN(2) == 0 {
+		stm = "b"
+	}
+	return sb.String() + " " + stm + " - - 0 1"
+}
+
 type pools struct {
 	all       []*root
 	byClass   map[string][]*root
@@ -378,6 +462,17 @@ func (e *env) collect() *pools {
 			if add(e.mkRoot("heavy", ps.FEN(), nil)) {
 				nHeavy--
 			}
+		}
+	}
+	// double mating nets (both kings exposed to heavy pieces): generated, validated by the Lean `valid`
+	nDbl := e.c.Pick(30, 160)
+	for tries := 0; nDbl > 0 && tries < 6000; tries++ {
+		rt := e.mkRoot("double-net", doubleNetFEN(rng), nil)
+		if rt == nil || rt.final {
+			continue
+		}
+		if add(rt) {
+			nDbl--
 		}
 	}
 	nNet := e.c.Pick(24, 100)
@@ -556,6 +651,8 @@ type script struct {
 	nodes    []int
 	direct   string // first violated direct property check ("" = none)
 	directAt int
+	rawLo    []int // smallest / largest raw value in the REAL table after each go step
+	rawHi    []int
 	total    int
 	skipped  bool
 	shrunk   int
@@ -799,6 +896,8 @@ func (e *env) runImpl(sc *script) {
 	var s *search.Search
 	sc.impl = make([]string, len(sc.steps))
 	sc.nodes = make([]int, len(sc.steps))
+	sc.rawLo = make([]int, len(sc.steps))
+	sc.rawHi = make([]int, len(sc.steps))
 	sc.directAt = -1
 	sc.direct = ""
 	sc.total = 0
@@ -814,6 +913,7 @@ func (e *env) runImpl(sc *script) {
 			canon, n, _, direct := runGo(s, st.g)
 			sc.impl[i] = canon
 			sc.nodes[i] = n
+			sc.rawLo[i], sc.rawHi[i] = realRawRange(s)
 			sc.total += n
 			if direct != "" && sc.direct == "" {
 				sc.direct, sc.directAt = direct, i
@@ -871,14 +971,53 @@ func translate(ans string) (canon string, fuelOut, anomaly bool, err error) {
 		}
 		infos = strings.Join(out, ";")
 	}
-	return head + " | " + infos + " | " + parts[2], h[5] == "1", h[6] == "1" || h[6] == "3", err
+	fl, _ := strconv.Atoi(h[6])
+	return head + " | " + infos + " | " + parts[2], h[5] == "1", fl&1 != 0, err
+}
+
+// modelRawBeyond reads bit 2 of the flag field: the model's table holds a raw value beyond ±Inf after
+// this search (the negation of the Lean predicate `TTValsOK`).
+func modelRawBeyond(ans string) bool {
+	h := strings.Fields(strings.Split(ans, " | ")[0])
+	if len(h) != 7 {
+		return false
+	}
+	fl, _ := strconv.Atoi(h[6])
+	return fl&4 != 0
+}
+
+// realRawRange scans the REAL transposition table of s through the verif hooks of /repo/transp
+// (`VerifBuckets` / `VerifBucket`) and returns the smallest and largest raw `Value` stored.  The
+// `Search` object does not expose its table (search/export_verif.go only has `VerifDigest`), so the
+// unexported field `tt *transp.Table` is reached by reflection; a hook `VerifTable()` would be cleaner.
+func realRawRange(s *search.Search) (lo, hi int) {
+	f := reflect.ValueOf(s).Elem().FieldByName("tt")
+	tt := *(**transp.Table)(unsafe.Pointer(f.UnsafeAddr()))
+	n := tt.VerifBuckets()
+	for i := 0; i < n; i++ {
+		_, entries := tt.VerifBucket(i)
+		for _, e := range entries {
+			v := int(e.Value)
+			if v < lo {
+				lo = v
+			}
+			if v > hi {
+				hi = v
+			}
+		}
+	}
+	return
 }
 
 // nmpOutFlag reads bit 1 of the flag field of a `go` answer: the ghost flag `St.nmpOut` of the
 // skeleton (the mate branch of null-move pruning returned a beta below -Inf+ply in this search).
 func nmpOutFlag(ans string) bool {
 	h := strings.Fields(strings.Split(ans, " | ")[0])
-	return len(h) == 7 && (h[6] == "2" || h[6] == "3")
+	if len(h) != 7 {
+		return false
+	}
+	fl, _ := strconv.Atoi(h[6])
+	return fl&2 != 0
 }
 
 // saneVerdict reads the ` | nmpsane=…` suffix of a `gog` answer: checked, held, and the guarded
@@ -1233,6 +1372,45 @@ func (g *gen) generate() {
 		}
 		g.emit(sc)
 	}
+	// (j) double mating nets: a shallow search (mate scores enter the table and the root's alpha), a deeper one on
+	// the same engine (sibling lines are searched with beta below the mated-at-this-ply score; a node of
+	// such a line that mates after passing takes the null-move mate branch; its parent's fail-low store
+	// would hand the table an out-of-band mate score), then successors — preferring few-reply ones — on the
+	// same engine (a later probe of such an entry at a small ply is what could make a root fail low).
+	dbl := p.byClass["double-net"]
+	for i := 0; i < T(60, 500) && len(dbl) > 0; i++ {
+		rt := g.pick(dbl)
+		sc := newScript("double-net", g.buckets())
+		lo := 2 + r.IntN(3)
+		sc.add(plain(rt, lo))
+		hi := plain(rt, lo+2+r.IntN(3))
+		hi.nodes = 1500 + r.IntN(T(4000, 12000))
+		sc.add(hi)
+		// successors on the same engine
+		var succ []move.Move
+		for _, ix := range r.Perm(len(rt.legal)) {
+			succ = append(succ, rt.legal[ix])
+		}
+		var few, other []*root
+		for k := 0; k < len(succ) && k < 12; k++ {
+			n := g.e.extend(rt, "double-net-succ", succ[k])
+			if n.final {
+				continue
+			}
+			if len(n.legal) <= 2 {
+				few = append(few, n)
+			} else {
+				other = append(other, n)
+			}
+		}
+		cand := append(few, other...)
+		for k := 0; k < len(cand) && k < 2+r.IntN(2); k++ {
+			gs := plain(cand[k], 2+r.IntN(3))
+			gs.nodes = 800 + r.IntN(3000)
+			sc.add(gs)
+		}
+		g.emit(sc)
+	}
 	// (h) very deep searches of positions with a handful of men: the depth-gated rules (reverse futility
 	// d < 8, internal iterative reduction d > 5, late-move reduction table rows up to 12) at their limits
 	for i := 0; i < T(24, 120) && len(p.tiny) > 0; i++ {
@@ -1501,6 +1679,23 @@ func main() {
 				}
 				if anomaly {
 					e.r.Count("model:anomaly-flag", 1)
+				}
+				// the table invariant `TTValsOK` (raw values within ±Inf), measured on the REAL table and on the model's
+				e.r.Count("real:raw-range-checked", 1)
+				realOut := sc.rawLo[j] < -int(Inf) || sc.rawHi[j] > int(Inf)
+				if sc.rawHi[j] > int(Inf)-int(MaxPlies) || sc.rawLo[j] < -int(Inf)+int(MaxPlies) {
+					e.r.Count("real:raw-mate-score-in-table", 1)
+				}
+				if realOut {
+					e.r.Count("real:raw-beyond-inf", 1)
+				}
+				if modelRawBeyond(ans) {
+					e.r.Count("model:raw-beyond-inf", 1)
+				}
+				if (realOut || modelRawBeyond(ans)) && !bad {
+					bad = true
+					e.r.Fail(common.Mismatch{Property: "C06", Kind: "broken-correspondence", Ops: sc.ops(j), Impl: impl, Model: ans,
+						Note: fmt.Sprintf("TTValsOK violated: raw table values beyond ±Inf after this search (real table range [%d, %d], model flag %v) — the event the nmpOut / ttOut hypothesis guards against", sc.rawLo[j], sc.rawHi[j], modelRawBeyond(ans))})
 				}
 				e.r.Count("model:nmpOut-checked", 1)
 				if nmpOutFlag(ans) {
